@@ -382,6 +382,38 @@ class Gen:
         self.features.add("complex_array")
         return [["assign", name, None, rhs, []]]
 
+    def op_carr_builtin(self):
+        """A built-in whose result kind follows one of its arguments, applied to a complex array as a call
+        statement (keywords in either order): transpose keeps it complex, elementwise_abs makes it real."""
+        carrs = [x for x, t in self.defined.items() if isinstance(t, list) and t[0] == "carr"]
+        if not carrs:
+            ops = self.op_assign_carr()
+            carrs = [x for x, t in self.defined.items() if isinstance(t, list) and t[0] == "carr"]
+            if not carrs:
+                return ops
+        else:
+            ops = []
+        src = self.choice(carrs)
+        n = self.defined[src][1]
+        if self.chance(65):
+            cands = [x for x in CARR_TEMPS if self.types.get(x, ["carr", n]) == ["carr", n]]
+            if not cands:
+                return ops
+            name = self.choice(cands)
+            divs = [c for c in range(1, n + 1) if n % c == 0]
+            c_ = self.bcall("<builtin>transpose", [V(src), C(self.choice(divs))])
+            self.define(name, ["carr", n])
+        else:
+            cands = [x for x in self.ARR_TEMPS if self.types.get(x, ["arr", n]) == ["arr", n]]
+            if not cands:
+                return ops
+            name = self.choice(cands)
+            c_ = self.bcall("<builtin>elementwise_abs", [V(src)])
+            self.define(name, ["arr", n])
+            self.lbound1.add(name)
+        self.features.add("complex_array_builtin")
+        return ops + [["call", [name], c_[1], c_[2], c_[3]]]
+
     def op_real_from_cplx(self):
         cv = self.names_of(CPLX)
         name = self.fresh_or_existing(REAL, self.REAL_TEMPS)
@@ -1136,7 +1168,7 @@ class Gen:
             if self.p["fresh_names"]:
                 kinds += ["fresh"]
             if self.p["complex_vars"]:
-                kinds += ["cplx", "cplx", "cplx", "fromcplx"]
+                kinds += ["cplx", "cplx", "cplx", "fromcplx", "fromcplx"]
             # the dedicated operations share two slots, so that adding one does not thin out the rest
             special = []
             if self.p["recall"] and self.p["calls"]:
@@ -1173,7 +1205,8 @@ class Gen:
             elif k == "cplx":
                 new = self.op_assign_cplx()
             elif k == "fromcplx":
-                new = self.op_real_from_cplx() if self.chance(60) else self.op_assign_carr()
+                r_ = self.draw(st.integers(0, 9))
+                new = self.op_real_from_cplx() if r_ < 4 else (self.op_assign_carr() if r_ < 7 else self.op_carr_builtin())
             elif k == "real":
                 new = self.op_assign_real()
             elif k == "uvec":
